@@ -11,7 +11,8 @@
 // `_tr` operands are built with the transposed shape and passed through `BaseMatrix::transpose` on both sides
 // (nalgebra's transpose copies into standard column-major storage, so this is the same logical matrix reached another way).
 //
-// Derived from c20_ndarray.rs: same harness text with the backend types and names replaced, Lay::Rev instances mapped to
+// Derived from c20_ndarray.rs: same harness text with the backend types and names replaced (no dgemm stand-in: nalgebra's
+// dot is a plain loop and matmul is only driven into its shape check), Lay::Rev instances mapped to
 // Lay::Tr (duplicates dropped), h_stack / v_stack instances dropped (not admitted, see below). Keep the two files in step.
 use super::*;
 use crate::linalg::naive::dense_matrix::DenseMatrix;
@@ -677,7 +678,8 @@ macro_rules! h_copy_short_buffer {
 h_copy_short_buffer!(c20_na_copy_short_buffer_2x3_std, 2, 3, Lay::Std, 8);
 
 // ---------------------------------------------------------------------------------------------- shape-mismatch parity
-// DenseMatrix rejects (panics on) operands of unequal shape in add_mut, h_stack, v_stack, reshape and copy_from. The
+// DenseMatrix rejects (panics on) operands of unequal shape in add_mut, sub_mut, mul_mut, div_mut, h_stack, v_stack, reshape,
+// copy_from, matmul (inner dimensions) and dot (sizes; neither a row nor a column pair). The
 // `c20_na_ref_rejects_*` harnesses record that reference behaviour; the `c20_na_rejects_*` harnesses demand the same of
 // the backend. #[kani::should_panic]: the harness passes iff the call panics and nothing else goes wrong; if the backend
 // accepts the operands Kani reports "FAILED (encountered no panics, but at least one was expected)".
@@ -698,12 +700,29 @@ macro_rules! mismatch_op {
     (reshape, $a:ident, $b:ident, $r2:expr, $c2:expr) => {
         let _s = BaseMatrix::reshape(&$a, $r2, $c2);
     };
+    (sub_mut, $a:ident, $b:ident, $r2:expr, $c2:expr) => {
+        BaseMatrix::sub_mut(&mut $a, &$b);
+    };
+    (mul_mut, $a:ident, $b:ident, $r2:expr, $c2:expr) => {
+        BaseMatrix::mul_mut(&mut $a, &$b);
+    };
+    (div_mut, $a:ident, $b:ident, $r2:expr, $c2:expr) => {
+        BaseMatrix::div_mut(&mut $a, &$b);
+    };
+    (matmul, $a:ident, $b:ident, $r2:expr, $c2:expr) => {
+        let _s = BaseMatrix::matmul(&$a, &$b);
+    };
+    (dot, $a:ident, $b:ident, $r2:expr, $c2:expr) => {
+        let _s = BaseMatrix::dot(&$a, &$b);
+    };
 }
+
 macro_rules! h_rejects {
-    ($name:ident, $M:ty, $op:ident, $r1:expr, $c1:expr, $r2:expr, $c2:expr, $unw:expr) => {
+    ($name:ident, $M:ty, $op:ident, $r1:expr, $c1:expr, $r2:expr, $c2:expr, $unw:expr $(, #[$attr:meta])*) => {
         #[kani::proof]
         #[kani::unwind($unw)]
         #[kani::should_panic]
+        $(#[$attr])*
         #[allow(unused_mut, unused_variables)]
         fn $name() {
             let mut a: $M = BaseMatrix::fill($r1, $c1, 1.5);
@@ -730,3 +749,79 @@ h_rejects!(c20_na_rejects_copy_from_2x3_1x1, Bk, copy_from, 2, 3, 1, 1, 20);
 h_rejects!(c20_na_rejects_reshape_2x3_to_2x2, Bk, reshape, 2, 3, 2, 2, 20);
 h_rejects!(c20_na_rejects_reshape_2x3_to_4x2, Bk, reshape, 2, 3, 4, 2, 20);
 
+
+// sub_mut / mul_mut / div_mut (unequal shapes), matmul (inner dimensions differ), dot (sizes differ: 1x3 . 1x4; neither a row
+// nor a column vector pair: 2x2 . 2x2): DenseMatrix panics in all of them; constant cells (1.5 and -2.0).
+h_rejects!(c20_na_ref_rejects_sub_mut_2x3_1x3, Dm, sub_mut, 2, 3, 1, 3, 20);
+h_rejects!(c20_na_ref_rejects_sub_mut_2x3_3x2, Dm, sub_mut, 2, 3, 3, 2, 20);
+h_rejects!(c20_na_ref_rejects_mul_mut_2x3_1x3, Dm, mul_mut, 2, 3, 1, 3, 20);
+h_rejects!(c20_na_ref_rejects_mul_mut_2x3_3x2, Dm, mul_mut, 2, 3, 3, 2, 20);
+h_rejects!(c20_na_ref_rejects_div_mut_2x3_1x3, Dm, div_mut, 2, 3, 1, 3, 20);
+h_rejects!(c20_na_ref_rejects_div_mut_2x3_3x2, Dm, div_mut, 2, 3, 3, 2, 20);
+h_rejects!(c20_na_ref_rejects_matmul_2x3_2x3, Dm, matmul, 2, 3, 2, 3, 20);
+h_rejects!(c20_na_ref_rejects_matmul_1x3_1x3, Dm, matmul, 1, 3, 1, 3, 20);
+h_rejects!(c20_na_ref_rejects_dot_1x3_1x4, Dm, dot, 1, 3, 1, 4, 20);
+h_rejects!(c20_na_ref_rejects_dot_2x2_2x2, Dm, dot, 2, 2, 2, 2, 20);
+h_rejects!(c20_na_rejects_sub_mut_2x3_1x3, Bk, sub_mut, 2, 3, 1, 3, 20);
+h_rejects!(c20_na_rejects_sub_mut_2x3_3x2, Bk, sub_mut, 2, 3, 3, 2, 20);
+h_rejects!(c20_na_rejects_mul_mut_2x3_1x3, Bk, mul_mut, 2, 3, 1, 3, 20);
+h_rejects!(c20_na_rejects_mul_mut_2x3_3x2, Bk, mul_mut, 2, 3, 3, 2, 20);
+h_rejects!(c20_na_rejects_div_mut_2x3_1x3, Bk, div_mut, 2, 3, 1, 3, 20);
+h_rejects!(c20_na_rejects_div_mut_2x3_3x2, Bk, div_mut, 2, 3, 3, 2, 20);
+h_rejects!(c20_na_rejects_matmul_2x3_2x3, Bk, matmul, 2, 3, 2, 3, 20);
+h_rejects!(c20_na_rejects_matmul_1x3_1x3, Bk, matmul, 1, 3, 1, 3, 20);
+h_rejects!(c20_na_rejects_dot_1x3_1x4, Bk, dot, 1, 3, 1, 4, 20);
+h_rejects!(c20_na_rejects_dot_2x2_2x2, Bk, dot, 2, 2, 2, 2, 20);
+
+// ---------------------------------------------------------------------------------------------- dot where DenseMatrix returns
+// DenseMatrix::dot accepts any pair of which one operand has a single row or a single column, provided the sizes agree, and
+// returns the sum of the products of corresponding elements. Constant data: [1, 2, 3] . [4, 5, 6] = 32 exactly.
+// The backend must return (not panic) and return the same value.
+macro_rules! h_dot_value {
+    ($name:ident, $r1:expr, $c1:expr, $r2:expr, $c2:expr, $unw:expr $(, #[$attr:meta])*) => {
+        #[kani::proof]
+        #[kani::unwind($unw)]
+        $(#[$attr])*
+        fn $name() {
+            let av = [1.0f64, 2.0, 3.0];
+            let bv = [4.0f64, 5.0, 6.0];
+            let (d1, b1) = operands($r1, $c1, Lay::Std, &av);
+            let (d2, b2) = operands($r2, $c2, Lay::Std, &bv);
+            let dd = BaseMatrix::dot(&d1, &d2);
+            assert!(dd == 32.0, "harness: DenseMatrix dot of [1, 2, 3] and [4, 5, 6] is 32");
+            let bd = BaseMatrix::dot(&b1, &b2);
+            assert!(bd == dd, "nalgebra dot: same value as DenseMatrix for a vector pair DenseMatrix accepts ([1, 2, 3] . [4, 5, 6] = 32)");
+            kani::cover!(bd == 32.0);
+        }
+    };
+}
+h_dot_value!(c20_na_dot_value_1x3_1x3, 1, 3, 1, 3, 20);
+h_dot_value!(c20_na_dot_value_3x1_3x1, 3, 1, 3, 1, 20);
+h_dot_value!(c20_na_dot_value_1x3_3x1, 1, 3, 3, 1, 20);
+h_dot_value!(c20_na_dot_value_3x1_1x3, 3, 1, 1, 3, 20);
+
+// ---------------------------------------------------------------------------------------------- approximate_eq
+// DenseMatrix::approximate_eq returns false for operands of different shape (no panic, no broadcast); for equal shapes it is
+// the cell-wise |a - b| <= error. Constant cells.
+macro_rules! h_approximate_eq {
+    ($name:ident, $r1:expr, $c1:expr, $r2:expr, $c2:expr, $x:expr, $y:expr, $err:expr, $expect:expr, $unw:expr) => {
+        #[kani::proof]
+        #[kani::unwind($unw)]
+        fn $name() {
+            let d1: Dm = BaseMatrix::fill($r1, $c1, $x);
+            let d2: Dm = BaseMatrix::fill($r2, $c2, $y);
+            let b1: Bk = BaseMatrix::fill($r1, $c1, $x);
+            let b2: Bk = BaseMatrix::fill($r2, $c2, $y);
+            let de = BaseMatrix::approximate_eq(&d1, &d2, $err);
+            assert!(de == $expect, "harness: DenseMatrix approximate_eq gives the expected answer");
+            let be = BaseMatrix::approximate_eq(&b1, &b2, $err);
+            assert!(be == de, "nalgebra approximate_eq: same answer as DenseMatrix (false for operands of different shape: no panic, no broadcast)");
+            kani::cover!(be == $expect);
+        }
+    };
+}
+h_approximate_eq!(c20_na_approximate_eq_2x3_2x3_within, 2, 3, 2, 3, 1.5, 1.75, 0.5, true, 20);
+h_approximate_eq!(c20_na_approximate_eq_2x3_2x3_beyond, 2, 3, 2, 3, 1.5, 1.75, 0.125, false, 20);
+h_approximate_eq!(c20_na_approximate_eq_2x3_1x3_mismatch, 2, 3, 1, 3, 1.5, 1.5, 0.5, false, 20);
+h_approximate_eq!(c20_na_approximate_eq_2x3_3x2_mismatch, 2, 3, 3, 2, 1.5, 1.5, 0.5, false, 20);
+h_approximate_eq!(c20_na_approximate_eq_2x3_1x1_mismatch, 2, 3, 1, 1, 1.5, 1.5, 0.5, false, 20);
